@@ -687,3 +687,107 @@ fn strip_nums(v: &Value) -> Value {
         _ => v.clone(),
     }
 }
+
+// ---- K14 / K15: the generated client, executed -----------------------------------------------------
+
+/// Builds the crates with their examples, runs every example of a crate whose library compiles against the
+/// recording client and hands each recorded request to `judge`.
+fn run_examples_and_judge(prop: &str, tier: &str, seed: u64, out: &str, rule: &str, judge: &dyn Fn(&mut Report, &EmitCase, &Emitted, &hir::Operation, &Value, &[(String, String)])) {
+    silence_panics();
+    let mut rep = Report::new(prop, tier, seed);
+    let cases = compile_cases(prop, tier, seed, &mut rep, true);
+    let tag = format!("k{}-{tier}", &prop[1..]);
+    let n = cases.len();
+    let mut evals = 0u64;
+    if let Some(b) = build_all(&tag, cases, &mut rep, true, &|_, _| vec![]) {
+        let mut jobs: Vec<(usize, String)> = vec![];
+        for (i, _c) in b.cases.iter().enumerate() {
+            let (Some(r), Some(em)) = (b.results.get(&format!("c{i}")), b.emitted[i].as_ref()) else { continue };
+            if !r.lib_errors.is_empty() { rep.bump("skipped_library_does_not_compile"); continue; }
+            let examples: BTreeSet<String> = cratecheck::example_stems(&em.tree).into_iter().collect();
+            for e in &r.built_examples { if examples.contains(e) { jobs.push((i, e.clone())); } }
+        }
+        let env_of = |em: &Emitted| -> Vec<(String, String)> {
+            let lib = String::from_utf8_lossy(em.tree.get("src/lib.rs").map(|x| &x[..]).unwrap_or(b"")).to_string();
+            cratecheck::env_vars_of(&lib).into_iter().map(|k| { let v = if k.ends_with("_ENV") { "production".to_string() } else if k.ends_with("BASE_URL") { "https://base.example".to_string() } else { format!("env-{k}") }; (k, v) }).collect()
+        };
+        let runs: Vec<cratecheck::RunOut> = model::par_map(&jobs, |(i, e)| cratecheck::run_example(&b.tag, &format!("c{i}"), e, &env_of(b.emitted[*i].as_ref().unwrap()), "", 20));
+        for ((i, e), run) in jobs.iter().zip(runs.iter()) {
+            let c = &b.cases[*i];
+            let em = b.emitted[*i].as_ref().unwrap();
+            let Some(op) = em.hir.operations.iter().find(|o| mir_rust::sanitize_filename(&o.file_name()) == *e) else { continue };
+            let reqs: Vec<Value> = run.stdout.lines().filter_map(|l| l.strip_prefix("REQUEST ")).filter_map(|l| serde_json::from_str(l).ok()).collect();
+            if reqs.len() != 1 { rep.bump("examples_without_exactly_one_request(C16)"); continue; }
+            evals += 1;
+            judge(&mut rep, c, em, op, &reqs[0], &env_of(em));
+        }
+    }
+    cratecheck::cleanup(&tag);
+    rep.evaluations = evals;
+    rep.distinct_nontrivial = evals;
+    rep.rule = format!("{n} generated crates built with their examples against the stand-ins; every example of a crate whose library compiles is run once against the recording client (credentials and server selection supplied through the environment variables the generated lib.rs reads); {rule}");
+    rep.write(out);
+}
+
+fn kv_has(list: &Value, key: &str, pred: &dyn Fn(&str) -> bool) -> bool {
+    list.as_array().map(|a| a.iter().any(|kv| kv[0].as_str() == Some(key) && kv[1].as_str().map(pred).unwrap_or(false))).unwrap_or(false)
+}
+
+pub fn run_k14(tier: &str, seed: u64, out: &str) {
+    run_examples_and_judge("C14", tier, seed, out, "the recorded request must carry a credential taken from the environment in the place one of the document's security schemes names (header / query / cookie of that exact name, `Authorization: Bearer ..`), and none when the document declares no security", &|rep, c, _em, op, req, env| {
+        let case = case_text(c);
+        let from_env = |v: &str| env.iter().any(|(_, val)| val.starts_with("env-") && v.contains(val.as_str()));
+        let schemes = c.doc["components"]["securitySchemes"].as_object().cloned().unwrap_or_default();
+        let secured = c.doc.get("security").and_then(|s| s.as_array()).map(|a| !a.is_empty()).unwrap_or(false) && !schemes.is_empty();
+        if !secured {
+            let leaked = ["headers", "query", "cookies"].iter().any(|k| req[*k].as_array().map(|a| a.iter().any(|kv| kv[1].as_str().map(|v| v.contains("env-")).unwrap_or(false))).unwrap_or(false));
+            if leaked { rep.oracle_fail("credentialWithoutScheme", vec![], &case, &format!("{} {}: {}", op.method, op.path, req)); } else { rep.bump("k14_unsecured_ok"); }
+            return;
+        }
+        // D: apiKey (header / query / cookie), http bearer / basic, oauth2
+        if schemes.values().any(|s| s["type"] == serde_json::json!("http") && !matches!(s["scheme"].as_str().map(|x| x.to_lowercase()).as_deref(), Some("bearer") | Some("basic"))) { rep.bump("k14_outside_D_http_scheme"); return; }
+        let mut satisfied = false;
+        let mut basic = false;
+        for (_, s) in &schemes {
+            let ok = match (s["type"].as_str(), s["in"].as_str(), s["scheme"].as_str().map(|x| x.to_lowercase())) {
+                // an api key in a header that is itself called `bearer` / `bearer_auth` is the Authorization bearer token (C14's extraction oracle reads it the same way)
+                (Some("apiKey"), Some("header"), _) if ["bearer", "bearer_auth"].contains(&s["name"].as_str().unwrap_or("").to_case(Case::Snake).as_str()) => kv_has(&req["headers"], "Authorization", &|v| v.starts_with("Bearer ") && from_env(v)),
+                (Some("apiKey"), Some("header"), _) => kv_has(&req["headers"], s["name"].as_str().unwrap_or(""), &from_env),
+                (Some("apiKey"), Some("query"), _) => kv_has(&req["query"], s["name"].as_str().unwrap_or(""), &from_env),
+                (Some("apiKey"), Some("cookie"), _) => kv_has(&req["cookies"], s["name"].as_str().unwrap_or(""), &from_env),
+                (Some("http"), _, Some(sch)) if sch == "bearer" => kv_has(&req["headers"], "Authorization", &|v| v.starts_with("Bearer ") && from_env(v)),
+                (Some("http"), _, Some(sch)) if sch == "basic" => { basic = true; kv_has(&req["headers"], "Authorization", &|v| v.starts_with("Basic ")) }
+                (Some("oauth2"), _, _) => kv_has(&req["headers"], "Authorization", &|v| v.starts_with("Bearer ") && from_env(v)),
+                _ => false,
+            };
+            if ok { satisfied = true; }
+        }
+        if satisfied { rep.bump("k14_credential_placed"); }
+        // the recorded behaviour for http basic: the credential goes out as a bearer token
+        else { rep.oracle_fail("credentialNotSent", if basic && kv_has(&req["headers"], "Authorization", &|v| v.starts_with("Bearer ") && from_env(v)) { vec!["httpBasicScheme".to_string()] } else { vec![] }, &case, &format!("{} {}: no security scheme of the document is honoured by the request {}", op.method, op.path, req)); }
+    });
+}
+
+pub fn run_k15(tier: &str, seed: u64, out: &str) {
+    run_examples_and_judge("C15", tier, seed, out, "the URL of the recorded request must start with the document's only server URL, with the URL given in <SERVICE>_BASE_URL when the document has no server, or with the URL of the server whose description names the environment selected through <SERVICE>_ENV", &|rep, c, _em, op, req, _env| {
+        let case = case_text(c);
+        let url = req["url"].as_str().unwrap_or("");
+        let servers: Vec<(String, String)> = c.doc["servers"].as_array().map(|a| a.iter().map(|s| (s["url"].as_str().unwrap_or("").to_string(), s["description"].as_str().unwrap_or("").to_lowercase())).collect()).unwrap_or_default();
+        // several servers: the base URL is whatever <SERVICE>_ENV holds (the run sets it to `production`)
+        let mut trig = vec![];
+        let expect: Option<String> = match servers.len() {
+            0 => Some("https://base.example".to_string()),
+            1 => Some(servers[0].0.clone()),
+            _ => {
+                let kws = ["beta", "production", "development", "sandbox"];
+                let named: Vec<Option<&str>> = servers.iter().map(|(_, d)| kws.iter().find(|k| d.contains(**k)).cloned()).collect();
+                if named.iter().any(|n| n.is_none()) { if url.starts_with("https://base.example") { trig.push("serversWithoutKeywords".to_string()); } }
+                else { let mut v: Vec<&str> = named.iter().flatten().cloned().collect(); v.sort(); let n = v.len(); v.dedup(); if v.len() != n { trig.push("serversSharingKeyword".to_string()); } }
+                Some("production".to_string())
+            }
+        };
+        let Some(base) = expect else { return };
+        if url.starts_with(&base) && path_matches(&op.path, &url[base.len()..]) { rep.bump("k15_base_url_ok"); }
+        else { rep.oracle_fail("wrongBaseUrl", trig, &case, &format!("{} {}: requested {url}, expected {base} followed by the operation path", op.method, op.path)); }
+    });
+}
